@@ -281,6 +281,11 @@ func runC02(c *fw.Ctx) {
 		"dangling":  "TYPE @ok1 any\nGET /dangling\n  200 @nope\n",
 		"no-path":   "TYPE @ok1 any\n\nGET\n  200 any\n",
 		"long-line": "TYPE @ok1 any\nGET /" + strings.Repeat("x", 230) + " $\n",
+		// bodies that are still open where the file ends (the diagnostic sits on the last byte, which
+		// is the second byte of a CRLF pair in a CRLF file)
+		"unclosed-enum":     "TYPE @ok1 any\nENUM @e\n  [1,\n    2,\n",
+		"unclosed-schema":   "TYPE @ok1 any\nTYPE @open\n  {\n    \"a\": 1,\n",
+		"unclosed-response": "TYPE @ok1 any\nGET /open\n  200\n    {\n      \"a\": [1,\n",
 	}
 	good := func(i int) string { return fmt.Sprintf("TYPE @g%d any\n# filler\n", i) }
 	type structure struct {
